@@ -58,6 +58,11 @@ def gen(rng, tier):
         depth = rng.choice([0, 1, 2, 3, 5])
         path = [rand_index(rng) for _ in range(depth)]
         yield Case("kholawderive", [kind, hx(seed), nats(path), len(path)], "derive-" + kind)
+        # watch-only: the same path with the object converted to public-only after a prefix (soft children with non-zero, multi-byte indices)
+        if i % 2 == 0:
+            pre = [rand_index(rng) for _ in range(rng.randrange(0, 2))]
+            post = [rng.choice([1, 2, 255, 256, 65536, 2**31 - 1, rng.getrandbits(31)]) for _ in range(rng.randrange(1, 3))]
+            yield Case("kholawderive", [kind, hx(seed), nats(pre + post), len(pre)], "watch-only-" + kind)
     for kind in KH:
         for ln in (0, 15, 31, 33):
             yield Case("kholawderive", [kind, hx(bytes(ln)), "-", 0], "neg-seedlen")
